@@ -70,7 +70,9 @@ def run(ctx, rep):
         segs = emit_value(I, obj, ty)
         exp = expected(I, f, prod, P)
         if I.tops: rep.undecided('production', subj, I.tops, cb['sp']); continue
-        ok, why = segs_equal(segs, exp, [c for c, _ in I.st.facts])
+        sym.CTX = I.st.ranges
+        try: ok, why = segs_equal(segs, exp, [c for c, _ in I.st.facts])
+        finally: sym.CTX = {}
         n += 1
         rep.ob('production', subj, ok, '%s: %s' % (subj, why), sp=f.bodies[d]['sp'], detail={'emitted': show_segs(segs), 'specified': show_segs(exp)})
         if ty != 'aml::ResourceTemplate':
